@@ -16,31 +16,35 @@ structure SameTables (U : Universe) (s s' : St) : Prop where
   procs : s'.procs = s.procs
   sorted : s'.sorted = s.sorted
   prio : s'.prio = s.prio
+  /-- callbacks only ever ADD entities to the set awaiting deletion -/
+  deadMono : ∀ x, x ∈ s.dead → x ∈ s'.dead
 
 theorem SameTables.refl {U : Universe} (s : St) : SameTables U s s :=
-  ⟨rfl, rfl, fun _ => rfl, rfl, rfl, rfl, rfl⟩
+  ⟨rfl, rfl, fun _ => rfl, rfl, rfl, rfl, rfl, fun _ h => h⟩
 
 theorem SameTables.trans {U : Universe} {a b c : St} (h1 : SameTables U a b) (h2 : SameTables U b c) :
     SameTables U a c :=
   ⟨h2.ents.trans h1.ents, h2.comps.trans h1.comps, fun h => (h2.dead h).trans (h1.dead h),
    h2.nextId.trans h1.nextId,
-   h2.procs.trans h1.procs, h2.sorted.trans h1.sorted, h2.prio.trans h1.prio⟩
+   h2.procs.trans h1.procs, h2.sorted.trans h1.sorted, h2.prio.trans h1.prio,
+   fun x h => h2.deadMono x (h1.deadMono x h)⟩
 
 theorem callCb_tables (U : Universe) (s : St) (o : Obj) (m : String) (e : Entry) :
     SameTables U s (callCb U s o m e).1 := by
   unfold callCb
   simp only
   cases hr : U.reacts o m ((Dict.get? s.calls (o, m)).getD 0) with
-  | none => split <;> exact ⟨rfl, rfl, fun _ => rfl, rfl, rfl, rfl, rfl⟩
+  | none => split <;> exact ⟨rfl, rfl, fun _ => rfl, rfl, rfl, rfl, rfl, fun _ h => h⟩
   | some x =>
     have hd : U.Passive → False := fun h => by rw [h.noReact] at hr; cases hr
-    split <;> exact ⟨rfl, rfl, fun h => (hd h).elim, rfl, rfl, rfl, rfl⟩
+    split <;> exact ⟨rfl, rfl, fun h => (hd h).elim, rfl, rfl, rfl, rfl,
+      fun y hy => (mem_setAdd _ _ _).mpr (.inl hy)⟩
 
 theorem ctrlRecord_tables (U : Universe) (s : St) (ev : String) (o : Obj) (ent : Option Ent) :
     SameTables U s (ctrlRecord U s ev o ent) := by
   unfold ctrlRecord
   split
-  · split <;> exact ⟨rfl, rfl, fun _ => rfl, rfl, rfl, rfl, rfl⟩
+  · split <;> exact ⟨rfl, rfl, fun _ => rfl, rfl, rfl, rfl, rfl, fun _ h => h⟩
   · exact .refl s
 
 theorem lifecycle_tables (U : Universe) (s : St) (ev : String) (o : Obj) (m : Mapping)
@@ -51,14 +55,14 @@ theorem lifecycle_tables (U : Universe) (s : St) (ev : String) (o : Obj) (m : Ma
   · split
     · exact SameTables.trans (ctrlRecord_tables U s ev o ent) (callCb_tables U _ o _ _)
     · split
-      · exact ⟨rfl, rfl, fun _ => rfl, rfl, rfl, rfl, rfl⟩
+      · exact ⟨rfl, rfl, fun _ => rfl, rfl, rfl, rfl, rfl, fun _ h => h⟩
       · exact .refl s
 
 theorem removeHandler_tables {U : Universe} (s : St) (o : Obj) : SameTables U s (removeHandler s o) :=
-  ⟨rfl, rfl, fun _ => rfl, rfl, rfl, rfl, rfl⟩
+  ⟨rfl, rfl, fun _ => rfl, rfl, rfl, rfl, rfl, fun _ h => h⟩
 
 theorem addHandler_tables {U : Universe} (s : St) (o : Obj) (m : Mapping) : SameTables U s (addHandler s o m) :=
-  ⟨rfl, rfl, fun _ => rfl, rfl, rfl, rfl, rfl⟩
+  ⟨rfl, rfl, fun _ => rfl, rfl, rfl, rfl, rfl, fun _ h => h⟩
 
 theorem attachEvents_tables (U : Universe) (s : St) (o : Obj) (ent : Option Ent) :
     SameTables U s (attachEvents U s o ent).1 := by
